@@ -130,6 +130,11 @@ PROPS = {
     "C03": {
         "level": "proof",
         "units": ["namecheck", "namebuilder", "nameparse"],
+        "vx_search": {"bin": "c03_search_builder_sequences", "crate": "replay", "release": True,
+                      "what": "all octet strings of at most 6 octets over {0,1,2,63,64,'a'} through Name/RelativeName::from_slice against a "
+                              "reference checker, and all NameBuilder operation sequences of at most 5 steps over sizes that reach the "
+                              "63/254/255 limits (the open finding D5 is not judged) -- run only to find a concrete input for a failed "
+                              "Verus obligation"},
         "kani": [],
         "replays": [
             {"bin": "d32_zonefile_empty_label", "crate": "replay_net", "finding": "D32"},
